@@ -43,7 +43,7 @@ class Registry:
         self.bases = {}
         for dirpath, _, files in os.walk(os.path.join(root, 'dassh')):
             for fn in files:
-                if not fn.endswith('.py') or fn == 'plot.py':
+                if not fn.endswith('.py'):
                     continue
                 path = os.path.join(dirpath, fn)
                 mod = os.path.relpath(path, root)[:-3].replace(os.sep, '.')
